@@ -43,11 +43,15 @@ def htree_term(o, didx):
     return '(HNode %s %s [%s])' % (ds, 'true' if (not ch and o.isClockable()) else 'false', '; '.join(htree_term(c, didx) for c in ch))
 
 
-def lookup_tie(ctx, n_trees):
+def _lookup_one(ctx, t):
+    return lookup_tie(ctx, None, only=[t])
+
+
+def lookup_tie(ctx, n_trees, only=None):
     """returns list of problems"""
     py4hw = common.quiet_import()
     items, meta = [], []
-    for t in range(n_trees):
+    for t in (only if only is not None else range(n_trees)):
         rng = random.Random(ctx.seed * 7727 + t)
         mode = rng.choice(['hw', 'hw', 'hw', 'hw_nodrv', 'bare'])
         root, objs, drivers = H.random_tree(rng, with_top_driver=None if mode == 'bare' else True)
@@ -66,8 +70,18 @@ def lookup_tie(ctx, n_trees):
             n = D.nearest_driver(o)
             ref.append(None if n is None else didx[id(n)])
             ctx.count(('lookup', t, len(objs), o.getFullPath()))
-        buckets = 'n/a'
+        buckets, ref_buckets = 'n/a', 'n/a'
         if mode != 'bare':
+            # harness-owned reference table: allLeaves order, clockable leaves grouped by nearest driver, first-seen order
+            ref_buckets, order = {}, []
+            leaves0 = root.allLeaves()
+            for i, l in enumerate(leaves0):
+                if callable(getattr(l, 'clock', None)):
+                    n = D.nearest_driver(l)
+                    if n is None: ref_buckets = None; break
+                    if id(n) not in ref_buckets: ref_buckets[id(n)] = (didx[id(n)], []); order.append(id(n))
+                    ref_buckets[id(n)][1].append(i)
+            if ref_buckets is not None: ref_buckets = [ref_buckets[k] for k in order]
             try:
                 with quiet():
                     sim = root.getSimulator()
@@ -79,7 +93,7 @@ def lookup_tie(ctx, n_trees):
             ctx.count(('buckets', t))
         items.append(('t%d' % t, '(%s, clock_buckets %s)' % ('[' + '; '.join('getObjectClockDriver %s' % obj_term(o, didx) for o in objs) + ']',
                                                              htree_term(root, didx))))
-        meta.append(dict(tree=t, mode=mode, n_objects=len(objs), n_drivers=len(drivers), real=real, ref=ref, buckets=buckets,
+        meta.append(dict(tree=t, mode=mode, n_objects=len(objs), n_drivers=len(drivers), real=real, ref=ref, buckets=buckets, ref_buckets=ref_buckets,
                          paths=[o.getFullPath() for o in objs],
                          fields=[None if getattr(o, 'clockDriver', None) is None else didx[id(o.clockDriver)] for o in objs]))
     probs = []
@@ -88,6 +102,12 @@ def lookup_tie(ctx, n_trees):
             k = next(i for i, (a, b) in enumerate(zip(m['real'], m['ref'])) if a != b)
             probs.append(dict(kind='impl', what='getObjectClockDriver does not return the nearest ancestor\'s driver', tree_seed=ctx.seed * 7727 + m['tree'],
                               object=m['paths'][k], returned=m['real'][k], nearest=m['ref'][k], clockDriver_fields=dict(zip(m['paths'], m['fields']))))
+        if m['buckets'] != 'n/a':
+            norm = lambda b: b if b is None or isinstance(b, str) else [(a, list(x)) for a, x in b]
+            if norm(m['buckets']) != norm(m['ref_buckets']):
+                probs.append(dict(kind='impl', what='Simulator.clockDrivers does not put every clockable leaf once under its nearest ancestor\'s driver',
+                                  tree_seed=ctx.seed * 7727 + m['tree'], mode=m['mode'], simulator_table=norm(m['buckets']), expected=norm(m['ref_buckets']),
+                                  clockDriver_fields=dict(zip(m['paths'], m['fields']))))
     try:
         res = common.coq_eval('C10_tree', TREE_PRELUDE, items, timeout=600)
     except RuntimeError as ex:
@@ -102,8 +122,8 @@ def lookup_tie(ctx, n_trees):
                               model=model_lookup, real=m['real']))
         if m['buckets'] != 'n/a':
             real_b = m['buckets'] if m['buckets'] is None or isinstance(m['buckets'], str) else [(a, list(b)) for a, b in m['buckets']]
-            if real_b != model_b:
-                probs.append(dict(kind='impl' if m['real'] != m['ref'] else 'model',
+            if real_b != model_b and real_b == norm(m['ref_buckets']):
+                probs.append(dict(kind='model',
                                   what='Simulator.clockDrivers (driver -> clockables) differs from Model/ClockTree.clock_buckets',
                                   tree_seed=ctx.seed * 7727 + m['tree'], real=real_b, model=model_b, mode=m['mode']))
     if meta:
@@ -237,7 +257,11 @@ def run(ctx):
     found = False
     # ---- (a) lookup / bucketing
     probs, err = lookup_tie(ctx, 40 if ctx.quick else 300)
-    if err: ctx.notes['tree_coq_error'] = err
+    if err:
+        ctx.notes['tree_coq_error'] = err
+        if tie_ok and not probs:
+            ctx.violation({'what': 'the lookup/bucketing model could not be evaluated in Coq, correspondence with getObjectClockDriver unchecked', 'coq_error': err},
+                          found_input=False); found = True
     for p in probs[:3]:
         kind = p.pop('kind')
         ctx.violation(p, found_input=(kind == 'impl')); found = True
@@ -296,6 +320,13 @@ def run(ctx):
 
 def replay(rp):
     fam, seed, dom = rp.get('family'), rp.get('seed'), rp.get('domains', 1)
+    if fam is None and 'tree_seed' in rp:
+        ts = rp['tree_seed']
+        c2 = common.Ctx('C10', 'quick', 0)      # lookup_tie derives tree seeds as ctx.seed*7727 + t: seed 0, t = tree_seed
+        probs, err = _lookup_one(c2, ts)
+        if probs:
+            print('replay: STILL FAILING'); print(json.dumps(probs[0], indent=1, default=str)[:3000]); return 1
+        print('replay: tree %d: every object resolves to its nearest ancestor\'s driver and the driver table matches' % ts); return 0
     if fam is None:
         print(json.dumps(rp, indent=1)[:4000]); return 0
     steps = [([tuple(p) for p in pokes], n) for pokes, n in rp['steps']]
